@@ -12,13 +12,14 @@ func init() {
 	register("C09", "Decides structural necessary conditions of 'the TLS presentation codec is a bijection on every supported type shape': "+
 		"(R1) every byte parseField/readVarUint read lies at initOffset + a non-negative amount inside the data parameter (offset-relative base; recursive calls thread the offset); "+
 		"(R2) per shape the decoder's length guard, the bytes it consumes, the offset it returns and the bytes the encoder writes have the same width (1/2/3/4/8 for the fixed integers, info.count for enums and vector prefixes, the element count for arrays and vectors), big-endian in both directions, and a vector's prefix value is the length of the data written after it; "+
-		"(R3) parseField and marshalField dispatch on the same type constants and kinds, anything else is a structuralError, the six tag keys are cut at their own length and both directions read the same tag; "+
+		"(R3) parseField and marshalField dispatch on the same type constants and kinds, anything else is a structuralError, the six tag keys are cut at their own length and both directions read the same tag; a tag key beyond the six is an allocation hint only — followed from its case in fieldTagToFieldInfo through the fields of the field info it is stored in to every read of them in the module, its value ends in capacity operands of allocations alone (it creates no field info, is not returned or passed on, and a branch on it decides nothing but which pure value is merged), and no key is a prefix of another; "+
 		"(R4) fieldInfo.check's decision table is the documented one and gates every enum/vector success in both directions; uint24 overflow and invalid tag sizes are errors; byteCount's thresholds are the 2^(8k); "+
-		"(R5) every index, slice, big-endian load and allocation in the decoder is entailed to be inside its window / not larger than the remaining input by the dominating guards (ideal integers); "+
+		"(R5) every index, slice, big-endian load and allocation in the decoder is entailed to be inside its window / not larger than the remaining input by the dominating guards (ideal integers; an allocation size chosen among several values: each of them under the facts of the edge over which it is chosen); "+
 		"(R6) the decision table of the variant (selector) logic in both directions, decided on the paths of one iteration wherever the bookkeeping is written (inline or in a helper that answers chosen / not chosen): a variant whose selector was not seen, whose type is not a pointer (whatever the selector value, and before anything that is only defined on pointers runs on the field), or that is a second pick for a served selector is an error; an unchosen one is set nil / must be nil; the chosen one is allocated / must be non-nil, marked served and coded exactly once as v.Field(i).Elem(), a plain field as v.Field(i) of the field whose tag was looked up; "+
 		"(R10) the bounds gate every accepting path, walked from the function entries: with every info.check (decoder: readVarUint, and check inside it) failing, marshalField / parseField accept only in the cases of shapes without bounds, readVarUint and the *WithParams entry points not at all; the entry points hand back exactly what the workers produced, Marshal / Unmarshal forward, and only the codec calls the workers. "+
 		"(R11) element types that occupy no bytes (struct { }, [0]byte, structs of those): every loop of the decoder ends — it is a range over a map, or an integer cursor moves forward by at least one on every way round (constant step, or the recursive call's verified postcondition offset ≤ result together with a comparison result ≠ / > cursor whose other branch cannot reach the next round) and every way round passes a test that keeps the cursor below a bound the loop does not change; so every round of the element loop consumes at least one byte of the vector's body or ends in an error, and at most len(body) elements are appended; in the encoder every way from an element's encoding (marshalField on v.Index(i)) to the next round or an accepting return passes a comparison that found the body longer than before the element (length read before the call, or 0 for a buffer fresh in the round; the encoder only appends): a vector of zero-size elements is refused unless it is empty. "+
-		"NOT covered: the round-trip equalities themselves, semantics of package reflect, integer wrap-around (1<<(8*count) for count=8; int(varlen) on 32-bit platforms), tag sizes above 8 on selector-tagged fields, termination of the recursion on recursive Go types (depth is bounded by the input only through the bytes each level consumes), loops of the encoder other than the growth of the element loop's body. R11 decides progress from comparisons of offsets / buffer lengths only: a refusal of zero-size element TYPES made up front through package reflect (reflect.Type.Size() == 0), or a single test after the loop (no bytes written for a non-empty vector), is not recognised and reads as undecided.",
+		"(R12) every scratch buffer of the encoder (a *bytes.Buffer a codec function hands to a codec function as output without having received it as a parameter: the vector body, the field buffer, MarshalWithParams' output) holds, whenever it is read, exactly what this call's encoders wrote: its origin is a bytes.Buffer variable of the function or a sync.Pool's Get; along every path it is empty when the first encoder writes, only codec functions that confine their output parameter change it, no Reset lies between a write and a read; a pooled buffer is empty when taken because every taker resets it first or because the pool only holds empty buffers (New yields an untouched buffer and every Put in the module hands back a buffer of decided origin after a Reset with nothing written since — a deferred hand-back resets in the deferred function itself, as it also runs when a panic unwinds through a half-written buffer); the buffer is not stored, not used after the hand-back, its Bytes() are only copied; deferred calls of the codec functions do nothing but reset / hand back scratch buffers; functions with deferred calls are read through their result variables (a return delivers the value stored last; the recover block counts as a return only if a deferred call can recover). "+
+		"NOT covered: the round-trip equalities themselves, sync.Pool's own contract (one taker at a time), pools of anything but *bytes.Buffer and scratch buffers reached through fields, globals or merges (undecided: fail), tag text read by other means than the prefix tests of fieldTagToFieldInfo, influence of a hint through reflection / unsafe or through the time and memory an allocation takes, semantics of package reflect, integer wrap-around (1<<(8*count) for count=8; int(varlen) on 32-bit platforms), tag sizes above 8 on selector-tagged fields, termination of the recursion on recursive Go types (depth is bounded by the input only through the bytes each level consumes), loops of the encoder other than the growth of the element loop's body. R11 decides progress from comparisons of offsets / buffer lengths only: a refusal of zero-size element TYPES made up front through package reflect (reflect.Type.Size() == 0), or a single test after the loop (no bytes written for a non-empty vector), is not recognised and reads as undecided.",
 		runC09)
 }
 
@@ -77,6 +78,8 @@ func c09Run(r *Run, only map[string]bool) {
 	guarded("C09.R9", func() { c09R9(r, pf, mf, rv, um) })
 	guarded("C09.R10", func() { c09R10(r, pf, mf, rv) })
 	guarded("C09.R11", func() { c09R11(r, pf, mf, rv, um) })
+	guarded("C09.R12", func() { c09R12(r, mf) })
+	c09Trace(r)
 }
 
 // ---- R1: one offset-relative base ------------------------------------------------------
@@ -242,24 +245,24 @@ func c09R5(r *Run, pf, rv, um *c09fn) {
 			for _, n := range call.Call.Args[1:] {
 				okN := false
 				for _, a := range c.acc {
-					if e.isRemainingInput(a.w) && e.entailsAt(a.w.length().plus(e.lin(n), -1), call) {
+					if e.isRemainingInput(a.w) && c09BoundedAt(e, a.w.length(), n, call.Block(), 0) {
 						okN = true
 					}
 				}
 				ok = ok && okN
 			}
-			r.Check(c.key(call, "alloc["+keySafe(e.lin(call.Call.Args[1]).String())+","+keySafe(e.lin(call.Call.Args[2]).String())+"]"), ok, r.Where(call), "allocation size is bounded by the length of the remaining input on every path")
+			r.Check(c.key(call, "alloc["+c09SizeKey(e, call.Call.Args[1])+","+c09SizeKey(e, call.Call.Args[2])+"]"), ok, r.Where(call), "allocation size is bounded by the length of the remaining input on every path (a size chosen among several values: each of them, on the edge over which it is chosen)")
 		}
 		eachInstr(fn, func(in ssa.Instruction) {
 			if ms, ok := in.(*ssa.MakeSlice); ok {
 				okN := false
 				for _, a := range c.acc {
-					if e.isRemainingInput(a.w) && e.entailsAt(a.w.length().plus(e.lin(ms.Cap), -1), ms) {
+					if e.isRemainingInput(a.w) && c09BoundedAt(e, a.w.length(), ms.Cap, ms.Block(), 0) {
 						okN = true
 					}
 				}
 				sites++
-				r.Check(c.key(ms, "alloc[make:"+keySafe(e.lin(ms.Cap).String())+"]"), okN, r.Where(ms), "make() size is bounded by the remaining input")
+				r.Check(c.key(ms, "alloc[make:"+c09SizeKey(e, ms.Cap)+"]"), okN, r.Where(ms), "make() size is bounded by the remaining input")
 			}
 		})
 	}
